@@ -70,13 +70,29 @@ fn apply_allow(mask: u16, notes: &[u8]) -> u16 {
     m
 }
 
+/// a new quantizer configured to the given scale, whatever scale `new()` starts with:
+/// allow the wanted classes first (the scale can only grow), then forbid the rest (never empties it)
 fn fresh_with(mask: u16) -> Quantizer {
     let mut q = real!(Quantizer::new());
+    let allowed: Vec<Note> = (0..12u8).filter(|n| mask >> n & 1 == 1).map(Note::from).collect();
     let forbidden: Vec<Note> = (0..12u8).filter(|n| mask >> n & 1 == 0).map(Note::from).collect();
+    if !allowed.is_empty() {
+        real!(q.allow(&allowed));
+    }
     if !forbidden.is_empty() {
         real!(q.forbid(&forbidden));
     }
     q
+}
+
+fn read_mask(q: &Quantizer) -> u16 {
+    let mut got = 0u16;
+    for n in 0..12u8 {
+        if real!(q.is_allowed(Note::from(n))) {
+            got |= 1 << n;
+        }
+    }
+    got
 }
 
 pub struct Exec {
@@ -135,7 +151,10 @@ impl Engine for QuantEngine {
     type Exec = Exec;
 
     fn new_exec(_cfg: &Cfg, _ctx: &mut Ctx) -> Exec {
-        Exec { q: real!(Quantizer::new()), mask: 0xFFF, prev: None, last_v: None, edited_since_convert: false, mono: None, band: None }
+        // the power-on scale is observed, not assumed
+        let q = real!(Quantizer::new());
+        let mask = read_mask(&q);
+        Exec { q, mask: if mask != 0 { mask } else { 0xFFF }, prev: None, last_v: None, edited_since_convert: false, mono: None, band: None }
     }
 
     fn step(ex: &mut Exec, ev: &Ev, ctx: &mut Ctx) {
